@@ -99,6 +99,18 @@ func (w *Recorder) Read(p []byte) (int, error) {
 		// six consecutive transient-looking failures (a consumer that retries a bounded
 		// number of times must still fail closed)
 		n, err = 0, tempErr{}
+	case w.mode == "panicstr" && k == w.at:
+		// the source panics inside Read with a value that is not an error (recorded first)
+		w.mu.Lock()
+		if len(w.log) < maxEvents {
+			ev := Event{Req: len(p), N: 0, Err: ErrInjected}
+			if TrackG {
+				ev.G = goid()
+			}
+			w.log = append(w.log, ev)
+		}
+		w.mu.Unlock()
+		panic("verif: injected crypto/rand panic (string value)")
 	case w.mode == "fail" && k == w.at:
 		n, err = 0, ErrInjected
 	case w.mode == "failpartial" && k == w.at && len(p) > 3:
